@@ -671,3 +671,136 @@ Proof.
   - rewrite wuw_put, Hf'. exact Hfuse.
   - rewrite wuw_put. unfold uevents. rewrite Hl'. reflexivity.
 Qed.
+
+(** ** swap between a removal handle and an element handle of another vector *)
+Lemma remove_upd (i : nat) (t : N) (xs : list N) : (i < length xs)%nat -> sp_remove i (sp_upd i t xs) = sp_remove i xs.
+Proof.
+  intros Hi. unfold sp_remove, sp_upd.
+  rewrite firstn_app_l by (rewrite firstn_length_le; lia).
+  assert (E : skipn (S i) (firstn i xs ++ t :: skipn (S i) xs) = skipn (S i) xs).
+  { replace (S i) with (length (firstn i xs ++ [t])) at 1 by (rewrite app_length, firstn_length_le; cbn; lia).
+    change (firstn i xs ++ t :: skipn (S i) xs) with (firstn i xs ++ [t] ++ skipn (S i) xs). rewrite app_assoc.
+    apply skipn_app_l. reflexivity. }
+  rewrite E. reflexivity.
+Qed.
+Lemma nth_upd_same (i : nat) (t : N) (xs : list N) : (i < length xs)%nat -> nth i (sp_upd i t xs) 0 = t.
+Proof.
+  intros Hi. unfold sp_upd. rewrite app_nth2 by (rewrite firstn_length_le; lia).
+  rewrite firstn_length_le by lia. rewrite Nat.sub_diag. reflexivity.
+Qed.
+
+Lemma set_nth_comm {A} (x y d : A) : forall n m l, n <> m -> set_nth n x d (set_nth m y d l) = set_nth m y d (set_nth n x d l).
+Proof.
+  induction n as [|n IH]; intros m l Hne; destruct m as [|m]; try congruence; destruct l as [|z l]; cbn [set_nth]; try reflexivity.
+  - f_equal. apply IH. congruence.
+  - f_equal. apply IH. congruence.
+Qed.
+
+Lemma exec_swap_temp c w st pr v1 i v2 j r :
+  cfg_wf c -> WRep c w st -> ufuse (wuw w) = None -> pr <> 0 ->
+  sp_swap_temp c st (unext (wuw w)) v1 i v2 j = Some r ->
+  res_matches c w (exec c (OSwap pr v1 i v2 j) w) r.
+Proof.
+  intros Hwf HW Hfuse Hpr Hr. unfold sp_swap_temp in Hr.
+  destruct (Nat.eqb_spec v1 v2) as [|Hne]; [discriminate|].
+  destruct (get_a v1 st) as [a|] eqn:Hga; [|discriminate].
+  destruct (get_a v2 st) as [b|] eqn:Hgb; [|discriminate].
+  destruct (wrep_get c w st v1 a HW Hga) as (va & Hgva & HVa).
+  destruct (wrep_get c w st v2 b HW Hgb) as (vb & Hgvb & HVb).
+  pose proof (vi_rep _ _ _ HVa) as HRa. pose proof (rep_len _ _ _ HRa) as Hla.
+  pose proof (vi_rep _ _ _ HVb) as HRb. pose proof (rep_len _ _ _ HRb) as Hlb.
+  cbn [exec]. rewrite (bind_ok _ _ _ _ _ (peek_vec_ok v1 w va Hgva)).
+  rewrite (bind_ok _ _ _ _ _ (peek_vec_ok v2 w vb Hgvb)). rewrite Hla, Hlb.
+  unfold bind at 1. unfold assert_.
+  assert (Hpanic : forall w0, w0 = w -> r = panic_res PIndex [] st (unext (wuw w)) ->
+            res_matches c w (Panic PIndex w0) r).
+  { intros w0 -> ->. cbn [res_matches panic_res s_out s_pk s_ret s_st s_evs s_nx].
+    split; [reflexivity|split; [reflexivity|split; [reflexivity|]]]. rewrite N.sub_diag. apply step_ok_refl; assumption. }
+  destruct (N.ltb_spec i (N.of_nat (length (a_xs a)))) as [Hi|Hi]; cbn [negb orb] in Hr.
+  2:{ injection Hr as <-. unfold raise. apply Hpanic; reflexivity. }
+  unfold ret at 1. unfold bind at 1.
+  destruct (N.ltb_spec j (N.of_nat (length (a_xs b)))) as [Hj|Hj]; cbn [negb] in Hr.
+  2:{ injection Hr as <-. unfold raise. apply Hpanic; reflexivity. }
+  injection Hr as <-. unfold ret at 1.
+  destruct (N.eqb_spec pr 0) as [|_]; [contradiction|].
+  set (ii := N.to_nat i). set (jj := N.to_nat j).
+  assert (Hii : (ii < length (a_xs a))%nat) by (unfold ii; lia). assert (Hjj : (jj < length (a_xs b))%nat) by (unfold jj; lia).
+  assert (Ei : i = N.of_nat ii) by (unfold ii; lia). assert (Ej : j = N.of_nat jj) by (unfold jj; lia).
+  set (xs := a_xs a) in *. set (ys := a_xs b) in *.
+  set (x := nth ii xs 0). set (y := nth jj ys 0).
+  assert (Hreq : temp_req TRemove ii xs) by (split; [exact Hii|discriminate]).
+  destruct (temp_open_some c w st v1 a TRemove i ii HW Hga Hreq (fun _ => Ei)) as (va0 & h & Hgva0 & _ & Hfor & Eopen).
+  rewrite Hgva in Hgva0. injection Hgva0 as <-.
+  rewrite (bind_ok _ _ _ _ _ Eopen).
+  set (wl := with_len (N.of_nat ii) va).
+  set (w1 := put_vec v1 (Some wl) (wuw w) w).
+  assert (Hg1 : forall u0 w0, get_vec v1 (put_vec v1 (Some wl) u0 w0) = Some wl) by (intros; apply get_vec_put_same).
+  assert (Ew1 : put_vec v1 (Some wl) (wuw w) w1 = w1) by (unfold w1; apply put_put_same).
+  (* the handle's pointer and value *)
+  rewrite (bind_ok _ _ _ _ _ (on_vec_ok v1 _ w1 wl _ wl (wuw w) (Hg1 _ _) (temp_ptr_ok c va (wuw w) xs TRemove ii h Hfor))).
+  rewrite Ew1.
+  assert (Er : read_ptr c (ptr_at c va (N.of_nat ii)) (wl, wuw w) = Ok (enc (szn c) x) (wl, wuw w)).
+  { unfold wl. rewrite read_ptr_with_len. rewrite (read_elem c va (wuw w) xs ii HRa Hii). reflexivity. }
+  rewrite (bind_ok _ _ _ _ _ (on_vec_ok v1 _ w1 wl _ wl (wuw w) (Hg1 _ _) Er)).
+  rewrite Ew1.
+  (* the element of the other vector *)
+  assert (Hg1b : get_vec v2 w1 = Some vb).
+  { unfold w1. rewrite get_vec_put_other' by congruence. exact Hgvb. }
+  rewrite Ej.
+  rewrite (bind_ok _ _ _ _ _ (on_vec_ok v2 _ w1 vb _ vb (wuw w1) Hg1b (read_elem c vb (wuw w1) ys jj HRb Hjj))).
+  set (w2 := put_vec v2 (Some vb) (wuw w1) w1).
+  assert (Hg2a : get_vec v1 w2 = Some wl).
+  { unfold w2. rewrite get_vec_put_other' by congruence. apply Hg1. }
+  (* handle := y *)
+  destruct (write_elem c va (wuw w2) xs ii y HRa Hii (elem_tok c vb b jj HVb Hjj)) as (va' & Ewa & HRa' & Hla' & Hca & Hgena & Hba & _).
+  assert (Ewa' : write_ptr c (ptr_at c va (N.of_nat ii)) (enc (szn c) y) (wl, wuw w2) = Ok tt (with_len (N.of_nat ii) va', wuw w2)).
+  { unfold wl. rewrite write_ptr_with_len, Ewa. reflexivity. }
+  rewrite (bind_ok _ _ _ _ _ (on_vec_ok v1 _ w2 wl tt _ (wuw w2) Hg2a Ewa')).
+  set (w3 := put_vec v1 (Some (with_len (N.of_nat ii) va')) (wuw w2) w2).
+  assert (Hg3b : get_vec v2 w3 = Some vb).
+  { unfold w3. rewrite get_vec_put_other' by congruence. unfold w2. apply get_vec_put_same. }
+  (* v2[j] := x *)
+  destruct (write_elem c vb (wuw w3) ys jj x HRb Hjj (elem_tok c va a ii HVa Hii)) as (vb' & Ewb & HRb' & _ & Hcb & _ & Hbb & _).
+  rewrite (bind_ok _ _ _ _ _ (on_vec_ok v2 _ w3 vb tt vb' (wuw w3) Hg3b Ewb)).
+  set (w4 := put_vec v2 (Some vb') (wuw w3) w3).
+  (* the world in which the handle - now holding y - is alive *)
+  set (a' := with_xs a (sp_upd ii y xs)).
+  set (b' := with_xs b (sp_upd jj x ys)).
+  set (st' := set_a v2 (Some b') (set_a v1 (Some a') st)).
+  set (w' := put_vec v1 (Some va') (wuw w4) w4).
+  assert (HVa' : VI c va' a') by (apply (vi_upd c va a ii y va' HVa HRa' Hca Hba)).
+  assert (HVb' : VI c vb' b') by (apply (vi_upd c vb b jj x vb' HVb HRb' Hcb Hbb)).
+  assert (HW' : WRep c w' st').
+  { intros k. unfold w', w4, w3, w2, w1, put_vec, st', set_a. cbn [wv]. rewrite !slot_set_nth.
+    destruct (Nat.eqb_spec k v1) as [->|Hk1].
+    - destruct (Nat.eqb_spec v1 v2); [contradiction|]. exact HVa'.
+    - destruct (Nat.eqb_spec k v2) as [->|Hk2]; [exact HVb'|apply HW]. }
+  assert (Hga' : get_a v1 st' = Some a').
+  { unfold st'. rewrite get_a_slot. unfold set_a. rewrite !slot_set_nth.
+    destruct (Nat.eqb_spec v1 v2); [contradiction|]. rewrite Nat.eqb_refl. reflexivity. }
+  assert (Hreq' : temp_req TRemove ii (a_xs a')).
+  { cbn [a' with_xs a_xs]. unfold temp_req. rewrite sp_upd_length' by exact Hii. exact Hreq. }
+  assert (Hgv' : get_vec v1 w' = Some va') by apply get_vec_put_same.
+  assert (Hfor' : temp_for c va' (a_xs a') TRemove ii h).
+  { destruct Hfor as (H1 & H2 & H3 & H4). cbn [a' with_xs a_xs]. unfold temp_for.
+    rewrite sp_upd_length' by exact Hii. repeat split; auto. rewrite H4. unfold ptr_at. rewrite Hgena. reflexivity. }
+  assert (Hfuse' : ufuse (wuw w') = None) by exact Hfuse.
+  destruct (sink_drop c w' st' v1 a' TRemove ii va' h HW' Hreq' HVa' Hfor' Hfuse' false) as (wz & Ez & Hso).
+  assert (Ew4 : put_vec v1 (Some (with_len (N.of_nat ii) va')) (wuw w') w' = w4).
+  { unfold w'. rewrite put_put_same. unfold w4, w3, put_vec. cbn [wv wuw]. f_equal.
+    rewrite (set_nth_comm _ _ _ v1 v2) by exact Hne. rewrite set_nth_same. reflexivity. }
+  rewrite Ew4 in Ez. cbn [apply_sink] in Ez. unfold bind in Ez.
+  unfold bind at 1.
+  destruct (on_vec v1 (temp_drop c false h) w4) as [u0 wq|p wq|f]; try discriminate.
+  unfold ret in Ez. injection Ez as <-. unfold ret.
+  cbn [res_matches ok_res s_out s_pk s_ret s_st s_evs s_nx].
+  split; [reflexivity|split; [reflexivity|split; [reflexivity|]]]. rewrite N.sub_diag.
+  destruct Hso as [R Nx F E]. constructor.
+  - intros k. specialize (R k). unfold st', set_a in R. unfold set_a. rewrite !slot_set_nth in R. rewrite !slot_set_nth.
+    destruct (Nat.eqb k v1) eqn:E1; destruct (Nat.eqb k v2) eqn:E2; try exact R.
+    + apply Nat.eqb_eq in E1, E2. congruence.
+    + cbn [a' with_xs a_xs take_result a_bk] in R. rewrite (remove_upd ii y xs Hii) in R. exact R.
+  - rewrite Nx. reflexivity.
+  - exact F.
+  - rewrite E. cbn [a' with_xs a_xs]. rewrite (nth_upd_same ii y xs Hii). reflexivity.
+Qed.
